@@ -242,8 +242,9 @@ def check_cast_tables(r, T, rule="R5.6"):
     # every return of a cast printer wraps the *printed operand* (target.tostring(x)) in the new type: the operand keeps its own
     # type inside the cast.  A literal re-materialised in the new type (make_constant(expr, x.operands[0])) skips the rounding to
     # the narrower type that the graph node upcast(constant(0.1, x: float32)) denotes.
+    from sa.core import inline_helpers
     for fname in ("upcast_func", "downcast_func"):
-        f = T.repo.func(T.rel, fname)
+        f = inline_helpers(T.repo, T.rel, T.repo.func(T.rel, fname))
         # the operand: the name unpacked from expr.operands
         opn = None
         for st in f.body:
